@@ -200,6 +200,51 @@ func zzPipelineOrders(n int, both bool) {
 	}
 }
 
+// HarnessC01NamespacedOrders: two desired resources of one kind that the
+// function gives the same metadata.name in two namespaces, with the map
+// iteration order in UpdateResourceRefs a decision point: once composed, a
+// further reconcile changes nothing whichever order the desired state is
+// walked in (the references differ in their namespace only).
+//
+//gosym:harness
+//gosym:maporders composite.UpdateResourceRefs
+//gosym:cover quiescent
+func HarnessC01NamespacedOrders() {
+	s := kube.New()
+	zzSetupComposedN(s, 0, 0, "", false)
+	st := zzStep{desired: []bool{true, true}, names: []string{"same", "same"}, namespaces: []string{"team-a", "team-b"}}
+	runner := &zzRunner{steps: []zzStep{st}}
+	c := NewFunctionComposer(s, s, runner)
+	req := CompositionRequest{Revision: zzRevision(1)}
+	zz.MapOrders(false)
+	for k := 0; k < 2; k++ {
+		_, err := c.Compose(context.Background(), zzReadXR(s), req)
+		zz.Assert("reconcile-succeeds", err == nil)
+		if err != nil {
+			return
+		}
+	}
+	zz.Assert("both-resources-exist", s.Exists(zzCDGroup, zzCDKind, "team-a", "same") && s.Exists(zzCDGroup, zzCDKind, "team-b", "same"))
+	before := 0
+	for _, w := range s.Writes(false) {
+		if w.Effect {
+			before++
+		}
+	}
+	zz.MapOrders(true)
+	_, err := c.Compose(context.Background(), zzReadXR(s), req)
+	zz.MapOrders(false)
+	zz.Assert("third-reconcile-succeeds", err == nil)
+	after := 0
+	for _, w := range s.Writes(false) {
+		if w.Effect {
+			after++
+		}
+	}
+	zz.Cover("quiescent")
+	zz.Assert("converged-xr-unchanged-under-every-map-order", after == before)
+}
+
 // HarnessC01Namespaced: the pipeline composer with namespaced composed
 // resources (the function puts metadata.namespace on what it desires): three
 // reconciles of a fresh XR. The resources created by the first are found
